@@ -63,8 +63,10 @@ func vfBGPErrCode(err error) string {
 	return "io"
 }
 
-func vfBE16(b []byte) int    { return int(b[0])<<8 | int(b[1]) }
-func vfBE32(b []byte) uint32 { return uint32(b[0])<<24 | uint32(b[1])<<16 | uint32(b[2])<<8 | uint32(b[3]) }
+func vfBE16(b []byte) int { return int(b[0])<<8 | int(b[1]) }
+func vfBE32(b []byte) uint32 {
+	return uint32(b[0])<<24 | uint32(b[1])<<16 | uint32(b[2])<<8 | uint32(b[3])
+}
 
 func vfHex(b []byte) string {
 	const digits = "0123456789abcdef"
@@ -601,8 +603,10 @@ func vfBGPDecodeAttrs(u *vfBGPUpdateMsg, b []byte, as4 bool) error {
 
 // ---------------------------------------------------------------- encoder (test inputs and the scripted peer)
 
-func vfBGPPut16(b []byte, v int) []byte    { return append(b, byte(v>>8), byte(v)) }
-func vfBGPPut32(b []byte, v uint32) []byte { return append(b, byte(v>>24), byte(v>>16), byte(v>>8), byte(v)) }
+func vfBGPPut16(b []byte, v int) []byte { return append(b, byte(v>>8), byte(v)) }
+func vfBGPPut32(b []byte, v uint32) []byte {
+	return append(b, byte(v>>24), byte(v>>16), byte(v>>8), byte(v))
+}
 
 func vfBGPFrame(typ byte, body []byte) []byte {
 	out := make([]byte, 0, vfBGPHeaderLen+len(body))
